@@ -32,6 +32,8 @@ rule("C01.j", "a report column that is accumulated with += inside a loop over ma
               "loop, in every pass that selects the rows: a pass that selects the same rows again (an asset listing one node twice) "
               "must not add them a second time", floor=2)
 
+rule("C01.m", "report: `frame.loc[labels, col] += values` adds up only when `labels` is one label; with an array of labels repeated "
+              "labels do not accumulate (the last one wins) - accumulation over mapping rows goes row by row, or through a grouped sum", floor=2)
 rule("C05.n", "the series reported per storage (charge, discharge, fill level) are built from the rows of *all* nodes of the storage: a "
               "selector on the node column inside the storage-specific report block names every node (isin(node_names)), never one slot",
      floor=1)
@@ -240,6 +242,24 @@ def _accumulators(ctx):
                        node=(guarded[0] if guarded else st), ok_detail="reset by `%s`" % (au.short(resets[-1], 40) if resets else ""))
     ctx.require(n_i >= 2, "fewer than 2 accumulated report columns found in io", rules=['C01.j'])
 
+    # ---------------------------------------------------------------- C01.m label-based += with an array of labels
+    for fn in sorted(p.all_functions(), key=lambda f: f.qualname):
+        if fn.parent is not None or fn.module.name != "io":
+            continue
+        for st in au.walk_stmts(fn.body):
+            if not (isinstance(st, ast.AugAssign) and isinstance(st.op, (ast.Add, ast.Sub)) and isinstance(st.target, ast.Subscript)
+                    and isinstance(st.target.value, ast.Attribute) and st.target.value.attr == "loc"):
+                continue
+            lab = st.target.slice.elts[0] if isinstance(st.target.slice, ast.Tuple) and st.target.slice.elts else st.target.slice
+            arrayish = any(isinstance(x, ast.Attribute) and x.attr in ("values", "index") for x in au.walk_local(lab)) or \
+                any(isinstance(x, ast.Call) and au.method_name(x) in ("astype", "to_numpy", "tolist", "unique", "array", "asarray") for x in au.walk_local(lab)) or \
+                any(isinstance(a, ast.For) and isinstance(a.iter, ast.Call) and au.method_name(a.iter) == "groupby" for a in p.ancestors(st))
+            ctx.ob("C01.m", fn, au.short(st, 80), not arrayish,
+                   "the labels on the left are an array (%s): pandas evaluates `frame.loc[labels, col] += v` as a read, an addition and a label-based "
+                   "write, so two rows with the same label (two variables of one asset at the same node and step - power and heat of a CHP at its "
+                   "fuel node) do not add up, the last one wins, and the reported dispatch at that node no longer nets to zero" % au.short(lab, 50),
+                   node=st)
+
     # ---------------------------------------------------------------- C04.h combined result of the split optimisation
     so = p.fn_opt("SplitOptimProblem.optimize")
     if so is None:
@@ -299,7 +319,7 @@ def _accumulators(ctx):
     return n
 
 
-@analysis("lockstep", ["C07.c", "C07.d", "C20.g", "C07.r", "C01.j", "C05.n", "C04.h"])
+@analysis("lockstep", ["C07.c", "C07.d", "C20.g", "C07.r", "C01.j", "C05.n", "C04.h", "C01.m"])
 def run(ctx):
     p = ctx.p
     n_var = n_row = 0
